@@ -172,7 +172,7 @@ theorem query_chain {tr : Trace} {endT : Int} (h4 : K4 Cfg.paper tr endT = true)
       ⟨er, her, herh, heri, her1, _⟩ | ⟨o, ho, hot⟩
     · exfalso
       have := hno er her herh (by omega)
-      rw [heri, posFull_pos hpf] at this
+      rw [heri, hpf] at this
       cases this
     · exact ⟨o, ho, by omega, by omega⟩
   · exact ⟨o, ho, by omega, by omega⟩
